@@ -26,6 +26,8 @@
 #include "HuTucker/HuTucker.h"
 #include "Huffman/Huffman.h"
 #include "RePair/RePair.h"
+#include "utils/Coder/DecodingTableBuilder.h"
+#include "utils/Coder/StatCoder.h"
 using namespace cds_static;
 
 extern "C" const char *__asan_default_options() {
@@ -311,6 +313,75 @@ static void c18_codes(bool thorough, int shard, int nshards, long start) {
   }
 }
 
+// C18, second half: the chunked decoding table inverts the encoder.  For every frequency family and both coders the table is
+// built the way the dictionaries build it (DecodingTableBuilder::insertDecodeableSubstr per symbol, insertEndingSubstr for the
+// zero-padded last chunk); every string of length 1..maxlen over a per-code alphabet {shortest codeword, longest codeword,
+// longest codeword that fits the 16-bit chunk, shortest codeword that does not} is encoded with StatCoder::encodeSymbol into
+// its own zero-padded buffer and decoded with DecodingTable::processChunk (scan state as StringDictionaryHASHHF::extract).
+static void c18_decode(bool thorough, int shard, int nshards, long start) {
+  std::vector<std::pair<str, std::vector<uint>>> fams; freq_families(thorough, fams);
+  int maxlen = thorough ? 4 : 3;
+  for (size_t i = 0; i < fams.size(); i++) {
+    if ((int)(i % nshards) != shard || (long)i < start) continue;
+    PG->sub = (int)i;
+    if (!ONLY.empty() && fams[i].first != ONLY) continue;
+    for (int coder = 0; coder < 2; coder++) {
+      str cname = coder ? "Huffman" : "HuTucker";
+      str in = fams[i].first;
+      pg_op(("DecodingTable/" + cname).c_str(), in);
+      long cases = 0, checks = 0;
+      std::vector<uint> f = fams[i].second;
+      DecodingTableBuilder *builder = new DecodingTableBuilder();
+      HuTucker *ht = NULL; Huffman *hf = NULL;
+      if (coder) { hf = new Huffman(f.data()); builder->initializeFromHuffman(hf); } else { ht = new HuTucker(f.data()); builder->initializeFromHuTucker(ht); }
+      Codeword *cw = builder->getCodewords();
+      bool valid = true; for (int c = 0; c < 256; c++) { uint b = cw[c].get_bits(); if (b == 0 || b > 32) valid = false; }
+      if (!valid) { delete builder; continue; }       // reported by the code-table half (codeword_longer_than_32_bits)
+      // alphabet
+      int smin = 1, smax = 1, sfit = -1, sover = -1;
+      for (int c = 1; c < 256; c++) { uint b = cw[c].get_bits();
+        if (b < cw[smin].get_bits()) smin = c; if (b > cw[smax].get_bits()) smax = c;
+        if (b <= TABLEBITSO && (sfit < 0 || b > cw[sfit].get_bits())) sfit = c;
+        if (b > TABLEBITSO && (sover < 0 || b < cw[sover].get_bits())) sover = c; }
+      std::vector<int> A = {smin, smax}; if (sfit >= 0) A.push_back(sfit); if (sover >= 0) A.push_back(sover);
+      std::sort(A.begin(), A.end()); A.erase(std::unique(A.begin(), A.end()), A.end());
+      std::vector<str> strs;
+      std::function<void(str)> rec = [&](str cur) { if (!cur.empty()) strs.push_back(cur); if ((int)cur.size() == maxlen) return; for (int a : A) rec(cur + (char)a); };
+      rec("");
+      StatCoder enc(cw);
+      std::vector<std::vector<uchar>> encoded;
+      for (auto &sx : strs) {
+        std::vector<uchar> buf(8 * (sx.size() + 1) + 64, 0);
+        uint bytes = 0, offset = 0; std::vector<uchar> textSubstr; std::vector<ushort> lenSubstr; ushort ptrSubstr = 0; uint codeSubstr = 0;
+        for (size_t k = 0; k <= sx.size(); k++) {
+          uchar symbol = (uchar)sx.c_str()[k];
+          bytes += enc.encodeSymbol(symbol, &buf[bytes], &offset);
+          builder->insertDecodeableSubstr(symbol, &codeSubstr, &ptrSubstr, &textSubstr, &lenSubstr);
+        }
+        if (textSubstr.size() > 0) { codeSubstr = codeSubstr << (TABLEBITSO - ptrSubstr); ptrSubstr = TABLEBITSO; builder->insertEndingSubstr(&codeSubstr, &ptrSubstr, &textSubstr, &lenSubstr); }
+        encoded.push_back(buf);
+      }
+      DecodingTable *table = builder->getTable();
+      for (size_t n = 0; n < strs.size(); n++) {
+        const str &sx = strs[n];
+        std::vector<uchar> out(4096, 0);
+        ChunkScan chunk = {0, 0, encoded[n].data(), (uint)encoded[n].size(), out.data(), 0, 0, 1};
+        bool end = false; uint rounds = 0;
+        while (!end && rounds < sx.size() + 4 && chunk.strLen < 2048) { end = table->processChunk(&chunk); rounds++; }
+        str got; if (end && chunk.strLen > 0) got.assign((char *)out.data(), chunk.strLen - 1);
+        cases++; checks++;
+        str bitsdesc; for (uchar ch : sx) bitsdesc += fmt("%u,", cw[ch].get_bits());
+        if (!end) kfail("DecodingTable/" + cname, "decode", "terminator_not_seen", fmt("%s: string %s (codeword bits %s) not terminated after %u chunks", in.c_str(), hex(sx).c_str(), bitsdesc.c_str(), rounds), in);
+        else if (got != sx) kfail("DecodingTable/" + cname, "decode", "wrong_string", fmt("%s: string %s (codeword bits %s) decoded as %s", in.c_str(), hex(sx).c_str(), bitsdesc.c_str(), hex(got).c_str()), in);
+      }
+      if (i < 4 && coder == 0) ksample(fmt("{\"component\":\"DecodingTable\",\"frequency_family\":\"%s\",\"alphabet_codeword_bits\":\"%u..%u\",\"strings\":%zu}", in.c_str(), cw[smin].get_bits(), cw[smax].get_bits(), strs.size()));
+      kstat(cases, checks);
+      delete builder; delete table; if (ht) delete ht; if (hf) delete hf;
+      asan_flush("DecodingTable/" + cname, in);
+    }
+  }
+}
+
 // ------------------------------------------------------------------ C19: bit sequences
 struct BitsModel { std::vector<uchar> b; };
 static BitSequence *make_bs(int variant, uint *data, size_t n, str &name) {
@@ -571,6 +642,7 @@ int main(int argc, char **argv) {
     std::vector<uint> widths = {2, 8, 9, 17};
     for (size_t i = 0; i < widths.size(); i++) if ((int)(i % sn) == si) { uint w = widths[i]; in_child("DAC_VLS", [=]() { c17_dac_vls(w, th ? 4 : 3, th ? 3 : 2); }, 600); }
   } else if (part == "codes") { in_child_resumable("codes", [=](long st) { c18_codes(th, si, sn, st); }, 600);
+  } else if (part == "decode") { in_child_resumable("DecodingTable", [=](long st) { c18_decode(th, si, sn, st); }, 600);
   } else if (part == "bits") { in_child_resumable("BitSequence", [=](long st) { c19_bits(th, si, sn, st); }, 3000);
   } else if (part == "wt") { in_child_resumable("WaveletTree", [=](long st) { c19_wt(th, si, sn, st); }, 3000);
   } else if (part == "repair") { in_child_resumable("RePair", [=](long st) { c20_repair(th, si, sn, st); }, 3000);
